@@ -299,7 +299,7 @@ func (a *aofRun) avoidRewrite(args []string) ([]string, bool) {
 	return args, false
 }
 
-func nowMs() int64 { return time.Now().UnixMilli() }
+func nowMs() int64 { return time.Now().UnixMilli() + clockSkewMs.Load() }
 
 // recover boots on image dir and checks the restored dataset against the admissible states.
 // minIdx: lowest admissible index into a.states; extra: further admissible states (in-flight).
